@@ -1245,7 +1245,17 @@ swtch:
 		} else if cv.Sign() <= 0 {
 			return fmt.Errorf("check: array length %q is not positive", aLen.Str(q.tm))
 		}
-		fallthrough
+		if err := q.tcheckTypeExpr(typ.Inner(), depth); err != nil {
+			return err
+		}
+		// Bound the total element count of (nested) arrays, so that the
+		// generated C array type has a representable size.
+		n := big.NewInt(1)
+		for x := typ; x.Decorator() == t.IDArray || x.Decorator() == t.IDRoarray; x = x.Inner() {
+			if n.Mul(n, x.ArrayLength().ConstValue()); n.Cmp(maxArrayElements) > 0 {
+				return fmt.Errorf("check: array type %q has too many elements", typ.Str(q.tm))
+			}
+		}
 
 	case t.IDNptr, t.IDPtr, t.IDRoslice, t.IDRotable, t.IDSlice, t.IDTable:
 		if err := q.tcheckTypeExpr(typ.Inner(), depth); err != nil {
